@@ -4,7 +4,7 @@
    Also the executable predicates `holds_*` (the plain-list semantics of the std counterpart evaluated
    on what the implementation printed).  Executable definitions only. *)
 From Coq Require Import List Arith Bool ZArith.
-From BV Require Import model.ContBuf model.ContPrevector model.ContVecDeque model.ContBitdeque.
+From BV Require Import model.ContBuf model.ContPrevector model.ContVecDeque model.ContBitdeque model.ContPool.
 Import ListNotations.
 Local Open Scope Z_scope.
 
@@ -199,5 +199,105 @@ Definition bd_spec_raw (ops : list raw_op) : option (list (option (list Z * list
 Definition holds_bd (ops : list raw_op) (observed : list (option (list Z * list Z))) : bool :=
   match bd_spec_raw ops with
   | Some spec => trace_eqb spec observed
+  | None => false
+  end.
+
+(* ------------------------------------------------------------------------------------------------
+   PoolResource<MAXB, ALIGN>(chunk_bytes); addresses are printed relative to the chunks:
+   chunk k occupies [k * chunk_size, (k + 1) * chunk_size) *)
+Definition pool_decode (r : raw_op) : option pop :=
+  match r with
+  | (0, [bytes; alignment]) => Some (PAlloc bytes alignment)
+  | (1, [i]) => Some (PFree (zn i))
+  | _ => None
+  end.
+
+Definition pool_cs (ALIGN chunk_bytes : Z) : Z := ContPool.num_elem_align_bytes ALIGN chunk_bytes * ContPool.EA ALIGN.
+Definition pool_base (cs : Z) (k : nat) : Z := Z.of_nat k * cs.
+
+(* one step as printed: result of the call (address, -1 = from ::operator new, -2 = a Deallocate step),
+   NumAllocatedChunks, bytes left in the last chunk, every free list (head first) *)
+Definition pool_obs_t : Type := ((Z * Z) * Z) * list (list Z).
+Definition pool_obs (o : pop) (st : pool * list live_entry) : pool_obs_t :=
+  let (s, live) := st in
+  let res := match o with
+             | PFree _ => -2
+             | PAlloc _ _ => match last live (External, 0, 0) with
+                             | (Pooled a, _, _) => a
+                             | (External, _, _) => -1
+                             end
+             end in
+  (((res, nz (length (p_chunks s))), p_end s - p_it s), p_free s).
+
+Fixpoint pool_obs_trace (MAXB ALIGN : Z) (base : nat -> Z) (st : pool * list live_entry) (ops : list pop)
+  : list (option pool_obs_t) :=
+  match ops with
+  | [] => []
+  | o :: r => match ContPool.pool_step MAXB ALIGN base st o with
+              | Some st' => Some (pool_obs o st') :: pool_obs_trace MAXB ALIGN base st' r
+              | None => [None]
+              end
+  end.
+
+Definition pool_trace_raw (MAXB ALIGN chunk_bytes : Z) (ops : list raw_op) : option (list (option pool_obs_t)) :=
+  match decode_all pool_decode ops with
+  | None => None
+  | Some os =>
+      let base := pool_base (pool_cs ALIGN chunk_bytes) in
+      match ContPool.pool_new MAXB ALIGN base chunk_bytes with
+      | None => None
+      | Some s0 => Some (pool_obs_trace MAXB ALIGN base (s0, []) os)
+      end
+  end.
+
+(* C61 predicate for the pool, evaluated on what the implementation returned: every pooled result is
+   aligned, lies inside one chunk, overlaps no live allocation (blocks of the rounded size), and
+   live + free-listed + unused bytes add up to NumAllocatedChunks * chunk size after every call. *)
+Definition pool_holds_state : Type := list (Z * Z * Z).      (* live: (address or -1, bytes, alignment) *)
+Definition blk (ALIGN : Z) (e : Z * Z * Z) : Z * Z :=
+  let '(a, bytes, _) := e in (a, ContPool.num_elem_align_bytes ALIGN bytes * ContPool.EA ALIGN).
+Definition pooled_entries (MAXB ALIGN : Z) (live : pool_holds_state) : list (Z * Z * Z) :=
+  filter (fun e => let '(a, bytes, al) := e in ContPool.is_free_list_usable MAXB ALIGN bytes al) live.
+Fixpoint free_bytes (ALIGN : Z) (k : Z) (fl : list (list Z)) : Z :=
+  match fl with
+  | [] => 0
+  | l :: r => Z.of_nat (length l) * (k * ContPool.EA ALIGN) + free_bytes ALIGN (k + 1) r
+  end.
+Definition zsum' (l : list Z) : Z := fold_right Z.add 0 l.
+
+Definition accounting_ok (MAXB ALIGN cs : Z) (live : pool_holds_state) (o : pool_obs_t) : bool :=
+  let '(((_, nchunks), avail), fl) := o in
+  zsum' (map (fun e => snd (blk ALIGN e)) (pooled_entries MAXB ALIGN live)) + free_bytes ALIGN 0 fl + avail
+    =? nchunks * cs.
+
+Definition alloc_ok (MAXB ALIGN cs : Z) (live : pool_holds_state) (bytes alignment : Z) (o : pool_obs_t) : bool :=
+  let '(((res, nchunks), _), _) := o in
+  if ContPool.is_free_list_usable MAXB ALIGN bytes alignment then
+    let b := blk ALIGN (res, bytes, alignment) in
+    (0 <=? res) && (res mod alignment =? 0) && (res mod ContPool.EA ALIGN =? 0) &&
+    (let c := res / cs in (c <? nchunks) && (fst b + snd b <=? (c + 1) * cs)) &&
+    forallb (fun e => ContPool.idisjb b (blk ALIGN e)) (pooled_entries MAXB ALIGN live)
+  else res =? -1.
+
+Fixpoint pool_holds_go (MAXB ALIGN cs : Z) (live : pool_holds_state) (ops : list pop)
+  (obs : list (option pool_obs_t)) : bool :=
+  match ops, obs with
+  | [], [] => true
+  | PAlloc bytes alignment :: r, Some o :: t =>
+      let '(((res, _), _), _) := o in
+      let live' := live ++ [(res, bytes, alignment)] in
+      alloc_ok MAXB ALIGN cs live bytes alignment o && accounting_ok MAXB ALIGN cs live' o &&
+      pool_holds_go MAXB ALIGN cs live' r t
+  | PFree i :: r, Some o :: t =>
+      (Nat.ltb i (length live)) &&
+      (let live' := firstn i live ++ skipn (S i) live in
+       accounting_ok MAXB ALIGN cs live' o && pool_holds_go MAXB ALIGN cs live' r t)
+  | _ :: _, [None] => true      (* the script ended in a client error: nothing to judge after it *)
+  | _, _ => false
+  end.
+
+Definition holds_pool (MAXB ALIGN chunk_bytes : Z) (ops : list raw_op) (obs : list (option pool_obs_t)) : bool :=
+  match decode_all pool_decode ops with
+  | Some os => pool_holds_go MAXB ALIGN (pool_cs ALIGN chunk_bytes) [] os obs
   | None => false
   end.
